@@ -23,6 +23,22 @@ func main() {
 			cfg := chansim.DrawConfig(r.Tape)
 			mode := chansim.Mode{MaxSteps: 60 + 40*r.Tape.CfgDraw(4), MaxHtlcs: []int{3, 8, 16, 30}[r.Tape.CfgDraw(4)]}
 			r.Arm = "fault-free/" + cfg.TypeName
+			// many-HTLC arm (drawn last: older tapes yield 0 = off): both
+			// sides accept 241 HTLCs, adds pile up between rare signatures,
+			// so single commitments carry hundreds of HTLC outputs (weight,
+			// fee and output-ordering code at the protocol maximum of 483)
+			den := 96
+			if thorough {
+				den = 24
+			}
+			if r.Tape.CfgDraw(den) == 1 {
+				cfg.MaxHtlcsA, cfg.MaxHtlcsB = 241, 241
+				if cfg.CapacitySat < 16_777_215 {
+					cfg.CapacitySat = 16_777_215
+				}
+				mode.MaxHtlcs, mode.MaxSteps, mode.ManyHtlcs = 483, 900, true
+				r.Arm = "many-htlcs/" + cfg.TypeName
+			}
 			chansim.NewSim(r, cfg, mode).Run()
 		}
 	case "C03":
